@@ -76,7 +76,7 @@ def state_of(node):
         return []
     if isinstance(node, nodes.SlotLM):
         return [("name", node.name), ("tag", getattr(node, "tag", None))]
-    return sorted((k, v) for k, v in vars(node).items() if k not in BOOK)
+    return sorted((k, v) for k, v in vars(node).items() if not (k in BOOK or k.startswith("_NodeMixin__") or k.startswith("_LightNodeMixin__")))
 
 
 def root_of(node):
@@ -118,8 +118,8 @@ def check_copy(entry, result, all_original, ctx):
         raise Violation("position", "%s: the result does not occupy the entry node's position in the copied tree" % ctx)
     while pending:
         o, c, path = pending.pop()
-        ot = vars(o)["target"]
-        ct = vars(c)["target"]
+        ot = o.target
+        ct = c.target
         if id(ot) not in mapping:
             pair_trees(root_of(ot), root_of(ct), mapping, pending, ctx)
         if mapping.get(id(ot)) is not ct:
